@@ -130,7 +130,9 @@ func checkC(r *vreport.Run, a *antispam.Antispammer, exc []excC, data string) {
 	if len(exc[0].Rules) == 1 {
 		r.Outcome("C", exc[0].Rules[0].Mode, fmt.Sprint(exc[0].Rules[0].CI, exc[0].Rules[0].Invert, exc[0].Rules[0].Values), data, fmt.Sprint(spam))
 	}
-	r.Sample(map[string]any{"part": "C", "exceptions": exc, "data": data, "spam": spam})
+	if want && len(exc[0].Rules) == 2 && len(data) >= 3 {
+		sample(r, "C", map[string]any{"part": "C", "exceptions": exc, "data": data, "spam": spam})
+	}
 }
 
 func dataC() []string {
